@@ -8,7 +8,7 @@ from .alpha import DAV, CALDAV
 from .world import World
 
 CH = {"x": "e", " ": " ", "%": "%", "#": "#", "?": "?", ";": ";", "+": "+", "e'": "é",
-      "2": "2", "4": "4", "0": "0", "ca": "\u0301"}
+      "2": "2", "4": "4", "0": "0", "ca": "\u0301", "mj": "\u00c3\u00a9"}
 
 
 def concrete(name):
